@@ -22,7 +22,7 @@ import (
 
 func TestMain(m *testing.M) {
 	document.SetGlobalLevel(document.LogLevelSilent)
-	kit.TestMain(m, 1200, 12000)
+	kit.TestMain(m, 2000, 30000)
 }
 
 type Case struct {
